@@ -448,7 +448,7 @@ func genCaseFor(p Profile) func(t *rapid.T) Case {
 				}
 				// lifetime
 				if p.ShortLife {
-					op.Life = []int64{5, 20, 100, 600, 2000, 0}[r.D%6]
+					op.Life = []int64{5, 20, 100, 600, 2000, 0, -1}[r.D%7] // -1: an InterestLifetime of 0 ms
 				} else {
 					op.Life = []int64{0, 0, 4000, 1000, 100, 10000}[r.D%6]
 				}
